@@ -187,7 +187,7 @@ func (p *syncProcessor) chainInfoNotifyHandler(msg notify.Message) {
 	}
 	err := chainInfo.SignInfo.ValidateSign(chainInfo)
 	if err != nil {
-		syncHandleLogger.Errorf("Sign verify error! ChainInfoMessage:%s", e.Error())
+		syncHandleLogger.Errorf("Sign verify error! ChainInfoMessage:%s", err.Error())
 		return
 	}
 	syncHandleLogger.Tracef("Rcv chain info! Height:%d,qn:%d,group height:%d,source:%s", chainInfo.TopBlockHeight, chainInfo.TotalQn, chainInfo.TopGroupHeight, chainInfo.SignInfo.Id)
